@@ -183,7 +183,11 @@ class LazyLogging(SimpleCodemod, NameAndAncestorResolutionMixin):
                 self.process_concat(node.left, format_strings, format_args, prefixes)
                 self.process_concat(node.right, format_strings, format_args, prefixes)
             case cst.SimpleString():
-                format_strings.append(node.raw_value)
+                raw_value = node.raw_value
+                if node.quote != '"' and "r" not in node.prefix.lower():
+                    # The combined string is delimited by `"`
+                    raw_value = _escape_double_quotes(raw_value)
+                format_strings.append(raw_value)
                 if node.prefix:
                     prefixes.append(node.prefix + '"')
             case _:
@@ -191,3 +195,17 @@ class LazyLogging(SimpleCodemod, NameAndAncestorResolutionMixin):
                 format_args.append(cst.Arg(value=node))
 
         return format_strings, format_args, prefixes
+
+
+def _escape_double_quotes(raw_value: str) -> str:
+    """Escape the unescaped `"` of the content of a string literal that was not delimited by `"`."""
+    escaped = []
+    i = 0
+    while i < len(raw_value):
+        if raw_value[i] == "\\" and i + 1 < len(raw_value):
+            escaped.append(raw_value[i : i + 2])
+            i += 2
+            continue
+        escaped.append('\\"' if raw_value[i] == '"' else raw_value[i])
+        i += 1
+    return "".join(escaped)
